@@ -34,9 +34,14 @@ def build(cfg, pts, vals):
     (x0, y0, x1, y1), res, margin = CONFIGS[cfg]
     frame = Track([Obs(ENUCoords(x0, y0, 0), ObsTime()), Obs(ENUCoords(x1, y1, 0), ObsTime())], 1, 1)
     frame.createAnalyticalFeature('f', list(FRAME_VALUES))
-    tr = Track([Obs(ENUCoords(x, y, 0), ObsTime()) for x, y in pts], 2, 2)
-    tr.createAnalyticalFeature('f', list(vals))
-    return TrackCollection([frame, tr]), [(x0, y0), (x1, y1)] + list(pts), list(FRAME_VALUES) + list(vals)
+    tracks = [frame]
+    cut = len(pts) if len(pts) < 40 else len(pts) - 5      # long collections: a long track followed by a short one
+    for tid, (a, b) in enumerate(((0, cut), (cut, len(pts)))):
+        if b > a:
+            tr = Track([Obs(ENUCoords(x, y, 0), ObsTime()) for x, y in pts[a:b]], 2 + tid, 2 + tid)
+            tr.createAnalyticalFeature('f', list(vals[a:b]))
+            tracks.append(tr)
+    return TrackCollection(tracks), [(x0, y0), (x1, y1)] + list(pts), list(FRAME_VALUES) + list(vals)
 
 
 def summarize(cfg, coll):
@@ -110,7 +115,12 @@ class C19(Check):
                             js.append(dict(kind='sum', cfg=c, k=kk, nan=[(pat >> b) & 1 for b in range(kk)], col0=col))
                     else:
                         js.append(dict(kind='sum', cfg=c, k=kk, nan=[(pat >> b) & 1 for b in range(kk)]))
-        js.sort(key=lambda j: -j['k'])
+        # scale probes: long tracks (fixed observations except one symbolic observation late in the track)
+        for c in (['unit', 'fine'] if tier == 'quick' else ['unit', 'partial', 'margin', 'fine']):
+            for n in ([45] if tier == 'quick' else [31, 32, 33, 45, 80, 200]):
+                for nanv in (0, 1):
+                    js.append(dict(kind='sum', cfg=c, k=n, long=True, nan=[nanv if i == n - 8 else (1 if i % 9 == 4 else 0) for i in range(n)]))
+        js.sort(key=lambda j: -j['k'] if not j.get('long') else 0)
         return js
 
     def _ncol(self, cfg):
@@ -123,6 +133,19 @@ class C19(Check):
     def _inputs(self, eng, inp, job):
         (x0, y0, x1, y1), res, margin = CONFIGS[job['cfg']]
         k = job['k']
+        if job.get('long'):
+            j = k - 8      # the symbolic observation
+            pts = [(x0 + ((i * 5) % 16) * (x1 - x0) / 16.0, y0 + ((i * 3 + i // 16) % 8) * (y1 - y0) / 8.0) for i in range(k)]
+            vals = [float('nan') if job['nan'][i] else float((i * 7) % 23) - 5.5 for i in range(k)]
+            if inp is None:
+                pts[j] = (eng.real('x%d' % j, x0, x1), eng.real('y%d' % j, y0, y1))
+                if not job['nan'][j]:
+                    vals[j] = eng.real('v%d' % j, 3.625, 4.375)      # strictly between two of the fixed values (these are all k + 0.5)
+            else:
+                pts[j] = (float(inp['x%d' % j]), float(inp['y%d' % j]))
+                if not job['nan'][j]:
+                    vals[j] = float(inp['v%d' % j])
+            return pts, vals
         if inp is None:
             pts = [(eng.real('x%d' % i, x0, x1), eng.real('y%d' % i, y0, y1)) for i in range(k)]
             vals = [float('nan') if job['nan'][i] else eng.real('v%d' % i, -50, 50) for i in range(k)]
@@ -197,7 +220,12 @@ class C19(Check):
                 want = {'co_sum': z3.Sum(ts) if len(ts) > 1 else ts[0], 'co_min': zmin(ts), 'co_max': zmax(ts),
                         'co_avg': (z3.Sum(ts) if len(ts) > 1 else ts[0]) / len(ts)}
                 for a in ('co_sum', 'co_min', 'co_max', 'co_avg'):
-                    if not ctx.prove(zreal(g[a]) == want[a], '%s equals the aggregate over exactly the non-NaN values located in the cell' % a):
+                    if job.get('long'):      # fixed floating-point values: sums and means of doubles are rounded by the code
+                        d = zreal(g[a]) - want[a]
+                        ok = z3.And(d <= z3.Q(1, 10 ** 9) * 100, d >= -z3.Q(1, 10 ** 9) * 100)
+                    else:
+                        ok = zreal(g[a]) == want[a]
+                    if not ctx.prove(ok, '%s equals the aggregate over exactly the non-NaN values located in the cell' % a):
                         return
                 if not ctx.prove(median_holds(zreal(g['co_median']), ts), 'co_median equals the median of the non-NaN values located in the cell'):
                     return
